@@ -728,6 +728,20 @@ pub fn eval_pair(
     }
 }
 
+/// `snapshot::state_root` under `catch_unwind` (its debug assertions fire on states with dangling
+/// portals; a panic there must become a verdict, not a harness crash).
+pub fn safe_root(st: &WarpState, k: &NodeKey) -> Result<[u8; 32], String> {
+    mc::catch(|| hooks::snapshot::state_root(st, k))
+}
+
+/// `Universe::coherent` under `catch_unwind` (index desyncs trip debug assertions in graph.rs).
+pub fn safe_coherent(u: &Universe, st: &WarpState) -> Result<RefState, String> {
+    match mc::catch(|| u.coherent(st)) {
+        Ok(r) => r,
+        Err(p) => Err(format!("panic: {p}")),
+    }
+}
+
 /// Apply `patch` to a clone of `real_a` and judge the outcome against the abstract target `b`.
 /// `phase` prefixes the violation signatures.
 pub fn apply_and_judge(
@@ -751,38 +765,50 @@ pub fn apply_and_judge(
         ),
         Ok(Err(e)) => (Verdict::Typed(error_variant(&e), e), None),
         Ok(Ok(())) => {
-            let verdict = match u.coherent(&st) {
+            let verdict = match safe_coherent(u, &st) {
                 Err(msg) => {
                     let mut sigs = vec![format!(
                         "{phase}:ok-but-incoherent-store:{}",
                         sanitize(&msg)
                     )];
-                    if let Ok(got) = u.read(&st) {
+                    if let Ok(Ok(got)) = mc::catch(|| u.read(&st)) {
                         for s in discrepancy_sigs(a, b, &got) {
                             sigs.push(format!("{phase}:{s}"));
                         }
                     }
                     Verdict::Bad(sigs, false)
                 }
-                Ok(got) => {
-                    let root = hooks::snapshot::state_root(&st, &u.root_key(b));
-                    if &got != b {
-                        Verdict::Bad(
-                            discrepancy_sigs(a, b, &got)
-                                .into_iter()
-                                .map(|s| format!("{phase}:{s}"))
-                                .collect(),
-                            &root == root_b,
-                        )
-                    } else if &root != root_b {
-                        Verdict::Bad(
-                            vec![format!("{phase}:ok-same-content-but-state-root-differs")],
-                            false,
-                        )
-                    } else {
-                        Verdict::Exact
+                Ok(got) => match safe_root(&st, &u.root_key(b)) {
+                    Err(p) => {
+                        // the snapshot hasher itself rejects the replayed state (debug assertion)
+                        let mut sigs = vec![format!(
+                            "{phase}:ok-but-state-root-panics:{}",
+                            sanitize(&p)
+                        )];
+                        for s in discrepancy_sigs(a, b, &got) {
+                            sigs.push(format!("{phase}:{s}"));
+                        }
+                        Verdict::Bad(sigs, false)
                     }
-                }
+                    Ok(root) => {
+                        if &got != b {
+                            Verdict::Bad(
+                                discrepancy_sigs(a, b, &got)
+                                    .into_iter()
+                                    .map(|s| format!("{phase}:{s}"))
+                                    .collect(),
+                                &root == root_b,
+                            )
+                        } else if &root != root_b {
+                            Verdict::Bad(
+                                vec![format!("{phase}:ok-same-content-but-state-root-differs")],
+                                false,
+                            )
+                        } else {
+                            Verdict::Exact
+                        }
+                    }
+                },
             };
             (verdict, Some(st))
         }
